@@ -195,6 +195,10 @@ func cliArgs(ops []string, in, in2, out string, page int) (args []string, ok boo
 	return args, true
 }
 
+func srtTime(ms int64) string {
+	return fmt.Sprintf("%02d:%02d:%02d,%03d", ms/3600000, ms/60000%60, ms/1000%60, ms%1000)
+}
+
 func init() {
 	// conv.pair <src> <dst> <casevariant> <page> <ops,comma separated> x<doc>
 	// answer: SRC <canonical subs read from the source> OPS <after the operations> BACK <re-read destination> [CLI <re-read destination written by the CLI>]
@@ -309,6 +313,36 @@ func init() {
 					c.count(src + "->" + dst)
 				}
 			}
+		}
+		// one operation through the command-line tool on timelines where operations interact: identical texts on
+		// touching, overlapping and nested cues (fragment must cut, not merge; unfragment must merge, not cut; sync ...)
+		nrep := 12
+		if c.thorough {
+			nrep = 300
+		}
+		for i := 0; i < nrep; i++ {
+			var b bytes.Buffer
+			t := r.rangeI(0, 3) * 1000
+			texts := []string{"la la", "la la", "b"}
+			for k := 0; k < 2+r.intn(5); k++ {
+				e := t + r.rangeI(1, 4)*1000
+				fmt.Fprintf(&b, "%d\n%s --> %s\n%s\n\n", k+1, srtTime(t), srtTime(e), texts[r.intn(len(texts))])
+				if r.chance(1, 4) { // nested
+					fmt.Fprintf(&b, "%d\n%s --> %s\n%s\n\n", k+50, srtTime(t), srtTime(t+(e-t)/2), texts[r.intn(len(texts))])
+				}
+				switch r.intn(3) {
+				case 0:
+					t = e // touching
+				case 1:
+					t = e - (e-t)/2 // overlapping
+				default:
+					t = e + r.rangeI(0, 3)*1000
+				}
+			}
+			op := []string{fmt.Sprintf("frag:%d", r.rangeI(1, 5)*1000000000), "unfrag", fmt.Sprintf("add:%d", -r.rangeI(0, 4)*1000000000), "order"}[r.intn(4)]
+			dst := []string{"srt", "vtt"}[r.intn(2)]
+			c.do(fmt.Sprintf("conv.pair srt %s %d 0 %s %s", dst, r.intn(12), op, encBytes(b.Bytes())))
+			c.count("cli-interaction")
 		}
 	}}
 
